@@ -9,6 +9,7 @@ import Proofs.Lemmas.PipelineInvC
 import Proofs.Lemmas.PipelineLog
 import Proofs.Lemmas.PipelineInvR2
 import Proofs.Lemmas.PipelineTerm
+import Proofs.Lemmas.PipelineInvE
 namespace Wpull.Pipeline
 
 /-! ## helper lemmas -/
@@ -67,14 +68,7 @@ def paused (s : St) : Prop := s.pstate = .running ∧ s.conc = 0
 
 /-! ## Property theorems -/
 
-/-- **No hang.**  In every reachable state of the repaired pipeline in which no coroutine can make a
-step and no task / `get_item` call is outstanding (`quiescent`), `process()` has completed —
-unless the pipeline is paused on purpose (running with concurrency 0, where it waits to be
-unpaused).  This is the "always finishes" half of C13 for all item counts, task counts,
-concurrency values, schedules, stops, concurrency changes and failures. -/
-theorem no_hang {c : Cfg} (hfx : c.fx = Fix.all) {conc0 : Nat} {s : St} (hr : Reach c conc0 s)
-    (hq : quiescent s = true) (hp : ¬ paused s) : mainDone s = true := by
-  have h := invN_reach hfx hr
+theorem no_hang_of_inv {s : St} (h : InvN s) (hq : quiescent s = true) (hp : ¬ paused s) : mainDone s = true := by
   obtain_inv h
   simp only [quiescent, Bool.and_eq_true, Bool.not_eq_true', beq_iff_eq] at hq
   obtain ⟨⟨⟨hq1, hq2⟩, hq3⟩, hq4⟩ := hq
@@ -89,6 +83,15 @@ theorem no_hang {c : Cfg} (hfx : c.fx = Fix.all) {conc0 : Nat} {s : St} (hr : Re
   all_goals (try rcases b with _ | _)
   all_goals (try simp [prodReady] at hq1)
   all_goals grind
+
+/-- **No hang.**  In every reachable state of the repaired pipeline in which no coroutine can make a
+step and no task / `get_item` call is outstanding (`quiescent`), `process()` has completed —
+unless the pipeline is paused on purpose (running with concurrency 0, where it waits to be
+unpaused).  This is the "always finishes" half of C13 for all item counts, task counts,
+concurrency values, schedules, stops, concurrency changes and failures. -/
+theorem no_hang {c : Cfg} (hfx : c.fx = Fix.all) {conc0 : Nat} {s : St} (hr : Reach c conc0 s)
+    (hq : quiescent s = true) (hp : ¬ paused s) : mainDone s = true :=
+  no_hang_of_inv (invN_reach hfx hr) hq hp
 
 
 /-- **Only source items.**  Every (task, item) event in the log is about an item the source
@@ -486,6 +489,107 @@ theorem no_infinite_internal_run {c : Cfg} (hfx : c.fx = Fix.all) {conc0 : Nat} 
       obtain ⟨a, ha, hs⟩ := hall i
       exact ih (f (i + 1)) ⟨hi ▸ hreach i, a, ha, hi ▸ hs⟩ (i + 1) rfl
   exact key (f 0) ((terminates hfx conc0).apply (f 0)) 0 rfl
+
+/-! ### a second `process()` on the same object -/
+
+/-- reachability over histories with several runs: `restart k` = `concurrency = k; process()` again on the object
+that a returned run left behind -/
+inductive ReachR (c : Cfg) (conc0 : Nat) : St → Prop
+  | init : ReachR c conc0 (initSt conc0)
+  | step {s s' : St} (a : Act) : ReachR c conc0 s → step c s a = some s' → ReachR c conc0 s'
+  | restart {s : St} (k : Nat) : ReachR c conc0 s → s.main = .returned → ReachR c conc0 (restartSt c k s)
+
+theorem restartSt_items_log (c : Cfg) (k : Nat) (s : St) :
+    (restartSt c k s).items = s.items ∧ (restartSt c k s).log = s.log := by
+  simp only [restartSt, mainLoop, shutdown, shutProd, awaitProd]
+  repeat' split
+  all_goals exact ⟨rfl, rfl⟩
+
+theorem inv_reachR {c : Cfg} (hfx : c.fx = Fix.all) {conc0 : Nat} {s : St} (hr : ReachR c conc0 s) :
+    InvN s ∧ InvLs c s ∧ InvE s := by
+  induction hr with
+  | init => exact ⟨invN_init conc0, invL_init c.n c.K, invE_init conc0⟩
+  | step a _ hs ih => exact ⟨invN_step hfx ih.1 hs, invL_step ih.1 ih.2.1 hs, invE_step hfx ih.1 ih.2.2 hs⟩
+  | @restart s0 k _ hret ih =>
+    have h := inv_restart hfx k ih.1 ih.2.2 hret
+    have hil := restartSt_items_log c k s0
+    exact ⟨h.1, by simp only [InvLs, hil.1, hil.2]; exact ih.2.1, h.2⟩
+
+/-- **The state a finished run leaves behind is a valid initial state.**  When `process()` has returned — after
+any history of runs on this object — no worker task is alive, `_worker_tasks` is empty, the producer task has
+ended, no item is inside a task, the pipeline state is `stopped`; and `process()` may be called again with any
+concurrency `k`: the control invariant and the run-end invariant hold again at the start of the new run (so
+everything derived from them — absence of hangs, tasks in order at most once — holds for the new run as well),
+and the new run does not start in the busy loop.  (The condition lock is free in every state of the model: it is
+never held across a suspension; the harness checks `Condition.locked()` after every returned run.) -/
+theorem run_end_is_valid_start {c : Cfg} (hfx : c.fx = Fix.all) {conc0 : Nat} {s : St} (hr : ReachR c conc0 s)
+    (hret : s.main = .returned) :
+    (s.live = 0 ∧ s.exited = 0 ∧ s.failedW = 0 ∧ s.pstate = .stopped ∧ (s.prod = .finished ∨ s.prod = .cancelled) ∧
+      ∀ (i k : Nat), s.items[i]? ≠ some (Ph.run k)) ∧
+    ∀ k, InvN (restartSt c k s) ∧ InvE (restartSt c k s) ∧ (restartSt c k s).main ≠ .spin ∧
+      ((restartSt c k s).pstate = .running ∧ ((restartSt c k s).unpaused = true ↔ 0 < k)) := by
+  obtain ⟨hn, _, he⟩ := inv_reachR hfx hr
+  obtain ⟨h1, h2, h3, h4, h5⟩ := he.e_ret hret
+  refine ⟨⟨h1, h2, h3, h4, h5, fun i k hik => ?_⟩, fun k => ?_⟩
+  · have := countRun_pos hik
+    have hb := hn.hbusy
+    simp only [St.live] at h1
+    omega
+  · have h := inv_restart hfx k hn he hret
+    refine ⟨h.1, h.2, h.1.hspin, ?_⟩
+    have hrun : (restartSt c k s).pstate = .running := by
+      simp only [restartSt, mainLoop, shutdown, shutProd, awaitProd]
+      repeat' split
+      all_goals first | rfl | (rename_i hc; simp at hc)
+    refine ⟨hrun, ?_⟩
+    have hc : (restartSt c k s).conc = k := by
+      simp only [restartSt, mainLoop, shutdown, shutProd, awaitProd]
+      repeat' split
+      all_goals rfl
+    have := h.1.hpause hrun
+    rw [hc] at this
+    exact this
+
+/-- **No hang in any run.**  `no_hang` for histories with any number of runs on the same object. -/
+theorem no_hang_any_run {c : Cfg} (hfx : c.fx = Fix.all) {conc0 : Nat} {s : St} (hr : ReachR c conc0 s)
+    (hq : quiescent s = true) (hp : ¬ paused s) : mainDone s = true :=
+  no_hang_of_inv (inv_reachR hfx hr).1 hq hp
+
+/-- **Tasks in order, at most once — across runs.**  Over the whole history of an object (several runs), every
+item's events are a prefix of start 0, end 0, …, start K, end K: an item left in the queue by a stopped run and
+processed by the next run is still processed once. -/
+theorem tasks_in_order_at_most_once_any_run {c : Cfg} (hfx : c.fx = Fix.all) {conc0 : Nat} {s : St}
+    (hr : ReachR c conc0 s) (i : Nat) : proj i s.log <+: pre (c.K + 1) := by
+  obtain ⟨_, hl, _⟩ := inv_reachR hfx hr
+  rcases Nat.lt_or_ge i s.items.length with h | h
+  · have hp : s.items[i]? = some s.items[i] := List.getElem?_eq_getElem h
+    obtain ⟨h1, h2⟩ := hl.hin i _ hp
+    rw [h1]; exact expected_prefix h2
+  · rw [hl.hout i h]; exact List.nil_prefix
+
+def runActsR (c : Cfg) (s : St) : List (Act ⊕ Nat) → Option St
+  | [] => some s
+  | a :: as => match stepR c s a with
+    | some s' => runActsR c s' as
+    | none => none
+
+open Act in
+/-- non-vacuity: run 1 is stopped with the producer blocked behind a queued item (producer cancelled, item 1 left in
+the queue, item 2 dropped), `process()` again with 2 workers: the left-over item 1 is processed by run 2 -/
+example : ∃ s, runActsR ⟨3, 0, false, Fix.all⟩ (initSt 1)
+      [.inl main, .inl prod, .inl prod, .inl getw, .inl prod, .inl prod, .inl stop, .inl (task 0 true), .inl main,
+       .inl prod, .inl main, .inr 2, .inl getw, .inl (task 1 true)] = some s ∧
+    s.pstate = .running ∧ s.items = [.done, .done, .held] ∧ proj 1 s.log = pre 1 := by
+  decide
+
+open Act in
+/-- **Unrepaired code (seeded C13-10 / before fix f515763).**  When `process()` does not clear a stale
+`_unpaused_event`, a second run started with concurrency 0 spins without yielding (the first run always ends in
+`stop()`, which sets the event). -/
+theorem restart_paused_counterexample :
+    ∃ s, runActsR ⟨0, 0, false, { Fix.all with pauseAtStart := false }⟩ (initSt 1)
+      [.inl main, .inl prod, .inl prod, .inl getw, .inl main, .inr 0] = some s ∧ s.main = .spin := by
+  decide
 
 /-! ### `Application.run()` over the pipeline series -/
 
